@@ -5,7 +5,7 @@ From Coq Require Import List NArith Bool Lia.
 From Feox Require Import Gen.Constants Model.Bytes Model.Crc32c Model.Codec Proofs.CodecProofs.
 From Feox Require Import Model.FreeSpace Model.Recovery Proofs.ScanAcceptsProofs Proofs.ScanQuiescentProofs.
 From Feox Require Proofs.FreeSpaceProofs.
-From Feox Require Import Model.MetaJournal Proofs.MetaJournalProofs.
+From Feox Require Import Model.MetaJournal Proofs.MetaJournalProofs Proofs.JournalLayoutProofs.
 Import ListNotations.
 Local Open Scope N_scope.
 
@@ -131,9 +131,10 @@ Theorem scan_accepts_what_the_write_path_encodes : forall version sector r,
   0 < N.of_nat (length (r_value r)) -> N.of_nat (length (r_value r)) <= MAX_VALUE_SIZE ->
   r_ts r < 2 ^ 64 -> r_exp r < 2 ^ 64 ->
   forall c total st jl rest',
-  c_ro c = false -> N.of_nat (length (r_key r)) <= MAX_KEY_SIZE ->
+  N.of_nat (length (r_key r)) <= MAX_KEY_SIZE ->
   sector + need_of version r <= total ->
   forall st4,
+  (c_ro c = false \/ jl = []) ->
   idx_find (r_key r) (rs_idx st) = None ->
   (if rs_last_end st <? sector then fs_release st (rs_last_end st) (sector - rs_last_end st) else Ok st) = Ok st4 ->
   scan_step c version total sector
@@ -146,9 +147,10 @@ Check scan_accepts_what_the_write_path_encodes : forall version sector r,
   0 < N.of_nat (length (r_value r)) -> N.of_nat (length (r_value r)) <= MAX_VALUE_SIZE ->
   r_ts r < 2 ^ 64 -> r_exp r < 2 ^ 64 ->
   forall c total st jl rest',
-  c_ro c = false -> N.of_nat (length (r_key r)) <= MAX_KEY_SIZE ->
+  N.of_nat (length (r_key r)) <= MAX_KEY_SIZE ->
   sector + need_of version r <= total ->
   forall st4,
+  (c_ro c = false \/ jl = []) ->
   idx_find (r_key r) (rs_idx st) = None ->
   (if rs_last_end st <? sector then fs_release st (rs_last_end st) (sector - rs_last_end st) else Ok st) = Ok st4 ->
   scan_step c version total sector
@@ -189,9 +191,10 @@ Theorem scan_retires_an_older_generation : forall version sector r,
   0 < N.of_nat (length (r_value r)) -> N.of_nat (length (r_value r)) <= MAX_VALUE_SIZE ->
   r_ts r < 2 ^ 64 -> r_exp r < 2 ^ 64 ->
   forall c total st jl rest',
-  c_ro c = false -> N.of_nat (length (r_key r)) <= MAX_KEY_SIZE ->
+  N.of_nat (length (r_key r)) <= MAX_KEY_SIZE ->
   sector + need_of version r <= total ->
   forall ex,
+  c_ro c = false ->
   idx_find (r_key r) (rs_idx st) = Some ex -> r_ts r < e_ts ex ->
   scan_step c version total sector
     (chunk_blocks (encode_extent version sector r) (N.to_nat (need_of version r)) ++ rest') st jl =
@@ -205,9 +208,10 @@ Check scan_retires_an_older_generation : forall version sector r,
   0 < N.of_nat (length (r_value r)) -> N.of_nat (length (r_value r)) <= MAX_VALUE_SIZE ->
   r_ts r < 2 ^ 64 -> r_exp r < 2 ^ 64 ->
   forall c total st jl rest',
-  c_ro c = false -> N.of_nat (length (r_key r)) <= MAX_KEY_SIZE ->
+  N.of_nat (length (r_key r)) <= MAX_KEY_SIZE ->
   sector + need_of version r <= total ->
   forall ex,
+  c_ro c = false ->
   idx_find (r_key r) (rs_idx st) = Some ex -> r_ts r < e_ts ex ->
   scan_step c version total sector
     (chunk_blocks (encode_extent version sector r) (N.to_nat (need_of version r)) ++ rest') st jl =
@@ -224,9 +228,10 @@ Theorem scan_replaces_by_a_newer_generation : forall version sector r,
   0 < N.of_nat (length (r_value r)) -> N.of_nat (length (r_value r)) <= MAX_VALUE_SIZE ->
   r_ts r < 2 ^ 64 -> r_exp r < 2 ^ 64 ->
   forall c total st jl rest',
-  c_ro c = false -> N.of_nat (length (r_key r)) <= MAX_KEY_SIZE ->
+  N.of_nat (length (r_key r)) <= MAX_KEY_SIZE ->
   sector + need_of version r <= total ->
   forall ex st1 st4,
+  c_ro c = false ->
   idx_find (r_key r) (rs_idx st) = Some ex -> e_ts ex <= r_ts r ->
   let exn := extent_blocks version (N.of_nat (length (e_key ex))) (e_vlen ex) in
   fs_release st (e_sector ex) exn = Ok st1 ->
@@ -248,9 +253,10 @@ Check scan_replaces_by_a_newer_generation : forall version sector r,
   0 < N.of_nat (length (r_value r)) -> N.of_nat (length (r_value r)) <= MAX_VALUE_SIZE ->
   r_ts r < 2 ^ 64 -> r_exp r < 2 ^ 64 ->
   forall c total st jl rest',
-  c_ro c = false -> N.of_nat (length (r_key r)) <= MAX_KEY_SIZE ->
+  N.of_nat (length (r_key r)) <= MAX_KEY_SIZE ->
   sector + need_of version r <= total ->
   forall ex st1 st4,
+  c_ro c = false ->
   idx_find (r_key r) (rs_idx st) = Some ex -> e_ts ex <= r_ts r ->
   let exn := extent_blocks version (N.of_nat (length (e_key ex))) (e_vlen ex) in
   fs_release st (e_sector ex) exn = Ok st1 ->
@@ -282,11 +288,11 @@ Check scan_skips_a_complete_marker_run : forall c version total sector n st jl r
 Print Assumptions scan_skips_a_complete_marker_run.
 
 Theorem scan_skips_a_zero_block : forall c version total sector st jl rest',
-  c_ro c = false ->
+  (c_ro c = false \/ jl = []) ->
   scan_step c version total sector (zeros BLOCK :: rest') st jl = Ok (Advance (sector + 1) st jl).
 Proof. exact scan_step_skips_a_zero_block. Qed.
 Check scan_skips_a_zero_block : forall c version total sector st jl rest',
-  c_ro c = false ->
+  (c_ro c = false \/ jl = []) ->
   scan_step c version total sector (zeros BLOCK :: rest') st jl = Ok (Advance (sector + 1) st jl).
 Print Assumptions scan_skips_a_zero_block.
 
@@ -457,6 +463,55 @@ Check journal_record_roundtrip : forall g state exts rest total,
   Forall (ext_valid total) exts -> no_overlap_sorted (sort_by_start exts) = true ->
   decode_slot (encode_journal g state exts ++ rest) total = Some (g, exts).
 Print Assumptions journal_record_roundtrip.
+
+(* the two journal slots lie between the metadata copies, and an image of at most
+   ALLOCATION_JOURNAL_MAX_ENTRIES extents never leaves its slot: it is at most
+   ALLOCATION_JOURNAL_SLOT_BLOCKS blocks long, so writing it changes no block of the other slot, of
+   either metadata copy or of the data area, nor the length of the file *)
+Theorem journal_slots_are_where_the_layout_says : forall slot,
+  slot < ALLOCATION_JOURNAL_SLOTS ->
+  let first := ALLOCATION_JOURNAL_START_BLOCK + slot * ALLOCATION_JOURNAL_SLOT_BLOCKS in
+  FEOX_METADATA_BLOCK < first /\ first + ALLOCATION_JOURNAL_SLOT_BLOCKS <= FEOX_METADATA_BACKUP_BLOCK /\
+  FEOX_METADATA_BACKUP_BLOCK < FEOX_DATA_START_BLOCK /\
+  JOURNAL_SLOT_SIZE = ALLOCATION_JOURNAL_SLOT_BLOCKS * FEOX_BLOCK_SIZE /\
+  ALLOCATION_JOURNAL_BLOCKS = ALLOCATION_JOURNAL_SLOTS * ALLOCATION_JOURNAL_SLOT_BLOCKS.
+Proof. exact JournalLayoutProofs.journal_slots_lie_between_the_metadata_copies. Qed.
+Check journal_slots_are_where_the_layout_says : forall slot,
+  slot < ALLOCATION_JOURNAL_SLOTS ->
+  let first := ALLOCATION_JOURNAL_START_BLOCK + slot * ALLOCATION_JOURNAL_SLOT_BLOCKS in
+  FEOX_METADATA_BLOCK < first /\ first + ALLOCATION_JOURNAL_SLOT_BLOCKS <= FEOX_METADATA_BACKUP_BLOCK /\
+  FEOX_METADATA_BACKUP_BLOCK < FEOX_DATA_START_BLOCK /\
+  JOURNAL_SLOT_SIZE = ALLOCATION_JOURNAL_SLOT_BLOCKS * FEOX_BLOCK_SIZE /\
+  ALLOCATION_JOURNAL_BLOCKS = ALLOCATION_JOURNAL_SLOTS * ALLOCATION_JOURNAL_SLOT_BLOCKS.
+Print Assumptions journal_slots_are_where_the_layout_says.
+
+Theorem journal_image_fits_its_slot : forall g st exts,
+  N.of_nat (length exts) <= ALLOCATION_JOURNAL_MAX_ENTRIES ->
+  (length (encode_journal g st exts) <= N.to_nat ALLOCATION_JOURNAL_SLOT_BLOCKS * BLOCK)%nat /\
+  (Nat.div (length (encode_journal g st exts)) BLOCK <= N.to_nat ALLOCATION_JOURNAL_SLOT_BLOCKS)%nat.
+Proof. exact JournalLayoutProofs.journal_image_fits_its_slot. Qed.
+Check journal_image_fits_its_slot : forall g st exts,
+  N.of_nat (length exts) <= ALLOCATION_JOURNAL_MAX_ENTRIES ->
+  (length (encode_journal g st exts) <= N.to_nat ALLOCATION_JOURNAL_SLOT_BLOCKS * BLOCK)%nat /\
+  (Nat.div (length (encode_journal g st exts)) BLOCK <= N.to_nat ALLOCATION_JOURNAL_SLOT_BLOCKS)%nat.
+Print Assumptions journal_image_fits_its_slot.
+
+Theorem journal_write_stays_in_its_slot : forall img slot g st exts k,
+  slot < ALLOCATION_JOURNAL_SLOTS -> N.of_nat (length exts) <= ALLOCATION_JOURNAL_MAX_ENTRIES ->
+  (N.to_nat FEOX_METADATA_BACKUP_BLOCK <= length img)%nat ->
+  let first := N.to_nat (ALLOCATION_JOURNAL_START_BLOCK + slot * ALLOCATION_JOURNAL_SLOT_BLOCKS) in
+  length (write_journal img slot g st exts) = length img /\
+  ((k < first \/ first + N.to_nat ALLOCATION_JOURNAL_SLOT_BLOCKS <= k)%nat ->
+   nth k (write_journal img slot g st exts) [] = nth k img []).
+Proof. exact JournalLayoutProofs.journal_write_stays_in_its_slot. Qed.
+Check journal_write_stays_in_its_slot : forall img slot g st exts k,
+  slot < ALLOCATION_JOURNAL_SLOTS -> N.of_nat (length exts) <= ALLOCATION_JOURNAL_MAX_ENTRIES ->
+  (N.to_nat FEOX_METADATA_BACKUP_BLOCK <= length img)%nat ->
+  let first := N.to_nat (ALLOCATION_JOURNAL_START_BLOCK + slot * ALLOCATION_JOURNAL_SLOT_BLOCKS) in
+  length (write_journal img slot g st exts) = length img /\
+  ((k < first \/ first + N.to_nat ALLOCATION_JOURNAL_SLOT_BLOCKS <= k)%nat ->
+   nth k (write_journal img slot g st exts) [] = nth k img []).
+Print Assumptions journal_write_stays_in_its_slot.
 
 Theorem journal_with_a_clear_record_decodes_clear : forall g rest0 s1 total, 0 < g -> g < 2 ^ 64 -> all_zero s1 = true ->
   decode_journal (encode_journal g JOURNAL_CLEAR [] ++ rest0) s1 total = Some (g, 0, []).
